@@ -755,6 +755,21 @@ pub fn field_tampers(rec: &Rec, other_key: &RefKey, other_rec: &Rec) -> Vec<(&'s
     ] {
         out.push((cls, assemble_with_sig(&s, &items)));
     }
+    // other encodings of the SAME valid signature: DER (70..72 bytes), r||s||v (65 bytes)
+    if sg.len() == 64 && rec.key.scheme == Scheme::Secp {
+        let int = |b: &[u8]| -> Vec<u8> {
+            let nz: Vec<u8> = b[b.iter().position(|&x| x != 0).unwrap_or(31)..].to_vec();
+            let mut v = if nz[0] & 0x80 != 0 { vec![0u8] } else { vec![] };
+            v.extend_from_slice(&nz);
+            [vec![0x02, v.len() as u8], v].concat()
+        };
+        let body = [int(&sg[..32]), int(&sg[32..])].concat();
+        let der = [vec![0x30, body.len() as u8], body].concat();
+        out.push(("sig-der-encoded", assemble_with_sig(&der, &items)));
+        for v in [0u8, 1, 27, 28] {
+            out.push(("sig-with-recovery-id", assemble_with_sig(&[&sg[..], &[v][..]].concat(), &items)));
+        }
+    }
     // signature with one byte dropped at the front of r / of s, or left-padded (interesting when that byte is 0)
     if sg.len() == 64 {
         out.push(("sig-leading-byte-dropped", assemble_with_sig(&sg[1..], &items)));
